@@ -140,9 +140,31 @@ def run(ctx):
             "kio.schema.api_versions.v4.response:ApiVersionsResponse", "kio.schema.fetch.v17.response:PartitionData"]
     pool = [keyidx[k] for k in fams if k in keyidx] + rng.sample(range(len(cl)), 12)
     insts = codec.gen_instances(cl, pool, 2, rng, big_strings=False)
+    # twins: values that compare equal (==, same hash) but are different values with different
+    # encodings (+0.0 / -0.0).  "Depends only on that value" must survive any value-keyed shortcut.
+    def set_floats(a, bits):
+        if a[0] == "F":
+            return ("F", bits)
+        if a[0] in ("E", "A"):
+            return (a[0], [set_floats(x, bits) for x in a[1]])
+        return a
+    fl = [i for i in range(len(cl)) if any(f.metadata.get("kafka_type") == "float64" for f in __import__("dataclasses").fields(cl.cls(i)))]
+    for i, a, obj in codec.gen_instances(cl, fl[:6], 1, rng, big_strings=False):
+        for bits in (0, 1 << 63):
+            t = set_floats(a, bits)
+            insts.append((i, t, values.build(t, cl.cls(i))))
     refs = {}
     for n, (i, a, obj) in enumerate(insts):
         refs[n] = ref_bytes(cl.cls(i), obj)
+    # the reference itself must not depend on the order in which it was computed
+    for n in reversed(range(len(insts))):
+        i, a, obj = insts[n]
+        evals += 1
+        if ref_bytes(cl.cls(i), obj) != refs[n]:
+            fails.append({"what": "encoding of a value depends on which values were encoded before it",
+                          "class": cl.keys[i], "value": values.render(a)[:2000]})
+    def same(x, y):
+        return values.render(values.abstract(x)) == values.render(values.abstract(y))
     nh = 120 if thorough else 30
     only_threads = os.environ.get("C19_ONLY_THREADS") == "1"     # (diagnostic switch, see DESIGN §10.4)
     for h in range(0 if only_threads else nh):
@@ -167,7 +189,7 @@ def run(ctx):
                                   "class": cl.keys[i], "history": [(o, cl.keys[insts[m][0]]) for o, m in ops][:40]})
             else:
                 v = entity_reader(c)(io.BytesIO(refs[n]))
-                if v != obj:
+                if v != obj or not same(v, obj):
                     fails.append({"what": "decoding depends on the history of created/used readers and writers",
                                   "class": cl.keys[i], "history": [(o, cl.keys[insts[m][0]]) for o, m in ops][:40]})
         nontrivial += 1
